@@ -102,7 +102,7 @@ func (f *Frame) enterLoop(st *State, b *ssa.BasicBlock, li *loopInfo) *State {
 	if all {
 		vc.env.fresh++
 		h.gen = vc.env.fresh
-		h.heaps = map[string]Term{}
+		h.heaps = vc.keepPrivate(h.heaps)
 	} else {
 		for _, hn := range sortedKeys(heaps) {
 			old := h.Heap(vc, hn, heaps[hn])
